@@ -9,6 +9,7 @@ import LettreVerif.Props.C02
 #print axioms LV.C02.trailing_spaces_witness
 #print axioms LV.C02.space_run_witness
 #print axioms LV.C02.mailbox_header_wf
+#print axioms LV.C02.content_disposition_wf
 #print axioms LV.C02.address_list_folded
 #print axioms LV.C02.sixty_recipients_folded
 #print axioms LV.C02.name_start_not_folded_witness
